@@ -218,7 +218,9 @@ class Dataset:
             if s["keys_mode"] == "ortho9+":
                 others = [k for k in nz if k not in ORTHO9]
                 krng.shuffle(others)
-                keys = ORTHO9 + others[: s["n_extra_keys"] + (len(others) // 2)]
+                # any subset of the other non-zero components, every size equally likely (single couplings such as
+                # "nine + c35 + c46" matter as much as nearly complete sets)
+                keys = ORTHO9 + others[: int(krng.integers(0, len(others) + 1))]
             elif s["keys_mode"] == "any":
                 allnz = list(nz)
                 krng.shuffle(allnz)
